@@ -108,7 +108,7 @@ impl FeelNumber {
   }
   ///
   pub fn even(&self) -> bool {
-    dec_is_zero(&dec_remainder(&self.0, &DEC_TWO))
+    self.is_integer() && !self.odd()
   }
   ///
   pub fn exp(&self) -> Self {
@@ -124,7 +124,7 @@ impl FeelNumber {
   }
   ///
   pub fn is_integer(&self) -> bool {
-    dec_is_integer(&self.0)
+    dec_is_finite(&self.0) && dec_is_zero(&dec_compare(&self.0, &dec_trunc(&self.0)))
   }
   ///
   pub fn is_one(&self) -> bool {
@@ -149,7 +149,8 @@ impl FeelNumber {
   }
   ///
   pub fn odd(&self) -> bool {
-    dec_is_integer(&self.0) && !dec_is_zero(&dec_remainder(&self.0, &DEC_TWO))
+    // the remainder is not a number when the quotient has more than 34 digits; such integers are multiples of ten
+    self.is_integer() && dec_is_zero(&dec_compare(&dec_abs(&dec_remainder(&self.0, &DEC_TWO)), &DEC_ONE))
   }
   ///
   pub fn pow(&self, rhs: &FeelNumber) -> Option<Self> {
